@@ -421,7 +421,10 @@ def _cfg_wd(tier):
 
 def _wd_pt(s, kind):
     ny = s["cfg"]["ny"]
-    return {"Mach_number": s["cfg"]["M"] + (0.0 if kind != "gen1" else 0.02), "CL": 0.5, "t_over_c": gv((ny - 1,), 2, 0.08, 0.16, s, kind), "lengths_spanwise": gv((ny - 1,), 3, 1.5, 2.0, s, kind), "widths": gv((ny - 1,), 4, 1.0, 1.4, s, kind), "chords": gv((ny,), 5, 1.0, 1.6, s, kind)}
+    # the second generic point lies on the OTHER side of the crest-critical Mach number, so that the two linearisations of a
+    # state (another point first, then the state's point) always straddle the component's input-dependent branch
+    M = s["cfg"]["M"] if kind != "gen1" else (0.92 if s["cfg"]["M"] < 0.75 else 0.58)
+    return {"Mach_number": M, "CL": 0.5, "t_over_c": gv((ny - 1,), 2, 0.08, 0.16, s, kind), "lengths_spanwise": gv((ny - 1,), 3, 1.5, 2.0, s, kind), "widths": gv((ny - 1,), 4, 1.0, 1.4, s, kind), "chords": gv((ny,), 5, 1.0, 1.6, s, kind)}
 
 
 Case("WaveDrag", _cfg_wd, lambda s: WaveDrag(surface=dict(_surf("w", s["cfg"], s["fam"]), with_wave=s["cfg"]["wave"])), _wd_pt, tags=("side", "M", "wave"), kinds=("gen0", "gen1"))
